@@ -44,7 +44,7 @@ CHECKS = {
     "C16": dict(level="exploration", tech="runtime monitoring: the monitored runner records the task.Task actually handed to it (commands, env, variables); compared with a deep copy of the definition taken when the schedule request returned; reload operations inside conformance histories (also with the loop parked between tasks via H1, and injected inside ScheduleAsync through the job-id generator); SIGUSR1 reload sequences on the real binary",
                 text="13 mutation operators applied at every point of a job's life; job list deep-equal across ReplaceDefinitions; per-job delay honoured; nothing stranded for pipelines that remain defined.", ref="4 C16"),
     "C17": dict(level="exploration", tech="runtime monitoring of LoadRecursively / Equals on generated inputs: round trip against the generator's own value, independent re-statement of the validity rules, single-constraint corruptions, reflection-driven single-field mutator for Equals",
-                text="Generated YAML trees over all fields, 16 corruption kinds, every field x every applicable edit operator; an unknown field kind makes the run inconclusive instead of being skipped.", ref="4 C17",
+                text="Generated YAML trees over all fields, 19 corruption kinds, every field x every applicable edit operator; an unknown field kind makes the run inconclusive instead of being skipped.", ref="4 C17",
                 note="Trusted base: yaml.v2 for emitting the input files; reflection enumerates the fields so future fields are included."),
     "C18": dict(level="exploration", tech="runtime monitoring with REAL processes: every task command dumps its complete environment and rendered arguments; read back through the real FileOutputStore and compared with the three-level expectation",
                 text="Names over every subset of the three levels (incl. prefix-related names), hostile values, concurrent jobs with per-job variables, missing-variable and reserved-variable cases.", ref="4 C18",
